@@ -25,7 +25,7 @@ def render(v):
     if k == "vec":
         return "#(%s)" % " ".join(render(x) for x in v["e"])
     if k == "bytes":
-        return "bytes:%r" % v["b"]
+        return "bytes:%r" % v["bv"]
     if k == "bool":
         return "#t" if v["b"] else "#f"
     return k
